@@ -155,11 +155,11 @@ def run(ck: Check):
     ck.level = "proof"
     obligations, discharged, axioms = standard_proof_step(ck, extra_targets=["Model/ParserCorr.vo", "Proofs/ParserWitness.vo"])
     q = ck.quick
-    budget = {"injections": 5 if q else 10, "cfgs_per_injection": 3 if q else 8, "conversions": 2 if q else 5,
-              "doc_injections": 2 if q else 5, "cfgs_per_doc": 2 if q else 4, "json_injections": 3 if q else 8,
-              "json_conversions": 6 if q else 20,
+    budget = {"injections": 5 if q else 8, "cfgs_per_injection": 3 if q else 4, "conversions": 2 if q else 3,
+              "doc_injections": 2 if q else 3, "cfgs_per_doc": 2 if q else 3, "json_injections": 3 if q else 6,
+              "json_conversions": 6 if q else 12,
               "mutations": 6, "cfgs_per_mutation": 2}
-    jobs = make_jobs(ck, "c10", EXTRAS_C10, ck.n(16, 260), budget)
+    jobs = make_jobs(ck, "c10", EXTRAS_C10, ck.n(16, 120), budget)
     if getattr(ck, "replay_file", None):
         rp = json.load(open(ck.replay_file))["replay"]
         if "job" in rp:
